@@ -32,6 +32,29 @@ func H_C14_endmarker() {
 	fs, _ := r.UPFSEID.FSEID()
 	vAssert("creation-emits-no-end-marker", e.dp.emCalls == 0 && len(e.dp.endMarkers) == 0)
 
+	// optionally an EARLIER attempt to move FAR 2 that failed - refused by the
+	// datapath, or carrying a second Update FAR that cannot be parsed: it must
+	// leave the stored tunnel as it was, so the markers of the retry below still
+	// go to the old tunnel
+	switch vChoose("earlier_failed_attempt", 3) {
+	case 1:
+		e.dp.fixedCause = 64 // ie.CauseRequestRejected
+		u := vFARSpec{id: 2, action: ActionForward, uplink: false, teid: 0x0badbad1, peer: [4]byte{203, 0, 113, 9}}
+		e.vSend(message.NewSessionModificationRequest(0, 0, fs.SEID, 9, 0, u.update()))
+		m0, ok := e.vLastReply().(*message.SessionModificationResponse)
+		vAssert("earlier-attempt-refused", ok && vCauseOf(m0.Cause) != ie.CauseRequestAccepted)
+		vTag("after-refused-attempt")
+	case 2:
+		e.dp.fixedCause = 1
+		u := vFARSpec{id: 2, action: ActionForward, uplink: false, teid: 0x0badbad2, peer: [4]byte{203, 0, 113, 9}}
+		bad := vFARSpec{id: 3, action: 0, uplink: false, teid: 1, peer: [4]byte{203, 0, 113, 9}}
+		e.vSend(message.NewSessionModificationRequest(0, 0, fs.SEID, 9, 0, u.update(), bad.update()))
+		m0, ok := e.vLastReply().(*message.SessionModificationResponse)
+		vAssert("earlier-attempt-refused", ok && vCauseOf(m0.Cause) != ie.CauseRequestAccepted)
+		vTag("after-malformed-attempt")
+	}
+	vAssert("failed-attempt-emits-no-end-marker", len(e.dp.endMarkers) == 0)
+
 	// modification with 1..vC14Updates Update FARs
 	e.dp.fixedCause = 0
 	e.dp.order = nil
@@ -68,6 +91,7 @@ func H_C14_endmarker() {
 		ies = append(ies, vFARSpec{id: 9, action: ActionForward, uplink: false, teid: 5, peer: [4]byte{1, 2, 3, 4}}.create())
 	}
 	before := len(e.conn.writes)
+	e.dp.emCalls = 0
 	e.vSend(message.NewSessionModificationRequest(0, 0, fs.SEID, 2, 0, ies...))
 	m := e.vExpectReply("mod", before, message.MsgTypeSessionModificationResponse, 2).(*message.SessionModificationResponse)
 	accepted := vCauseOf(m.Cause) == ie.CauseRequestAccepted
